@@ -65,6 +65,9 @@ const (
 	DialAccept
 	DialStall
 	DialReal // fall through to the real net.Dialer
+	// DialAcceptBroken: the connection comes up, but the remote has reset it before
+	// corebgp writes anything: the first write fails.
+	DialAcceptBroken
 )
 
 // DialReq describes one outbound dial attempt made by corebgp.
@@ -793,6 +796,9 @@ func (w *World) dial(ctx context.Context, peer corebgp.PeerConfig, laddr netip.A
 		src = w.O.LocalAddr
 	}
 	p := w.newPair(netip.AddrPortFrom(src, w.ephemeral()), netip.AddrPortFrom(peer.RemoteAddress, uint16(port)))
+	if act == DialAcceptBroken {
+		p.FailWriteAt = 1
+	}
 	rc := newRConn(w, p, "out", peer.RemoteAddress)
 	w.mu.Lock()
 	w.conns = append(w.conns, rc)
